@@ -109,6 +109,24 @@ Theorem C01_exporter_seed_order :
 Proof. exact exporter_seed_order. Qed.
 Print Assumptions C01_exporter_seed_order.
 
+(* the session's NAME under a ServerHello hook (6fdd853): the server reads the id back from its final ServerHello *)
+Theorem C01_session_named_alike :
+  forall generated sh_id, server_session_name generated sh_id = client_session_name sh_id.
+Proof. exact session_named_alike. Qed.
+Print Assumptions C01_session_named_alike.
+
+Theorem C01_session_named_before_the_hook_refuted :
+  exists generated sh_id, server_session_name_sw false generated sh_id <> client_session_name sh_id.
+Proof. exact session_named_before_the_hook_refuted. Qed.
+Print Assumptions C01_session_named_before_the_hook_refuted.
+
+Theorem C01_session_name_as_coded :
+  if server_names_session_as_final_server_hello
+  then forall generated sh_id, server_session_name generated sh_id = client_session_name sh_id
+  else exists generated sh_id, server_session_name generated sh_id <> client_session_name sh_id.
+Proof. exact session_name_as_coded. Qed.
+Print Assumptions C01_session_name_as_coded.
+
 (* as coded, the exporter first looks the suite up in the BUILT-IN table (ciphersuite.ForID(id, nil)): the two sides
    agree on the bytes or on the failure, the bytes exist exactly for built-in suites ... *)
 Theorem C01_export_as_coded_agreement :
